@@ -129,6 +129,9 @@ def collect(fw):
                         internal=P.WebSocketProtocol.CLOSE_STATUS_CODE_INTERNAL_ERROR,
                         normal=P.WebSocketProtocol.CLOSE_STATUS_CODE_NORMAL,
                         going_away=P.WebSocketProtocol.CLOSE_STATUS_CODE_GOING_AWAY)
+    tm = S.Serializer.MESSAGE_TYPE_MAP
+    need(isinstance(tm, dict) and tm and all(type(k) is int and 0 < k < 2 ** 16 for k in tm), "MESSAGE_TYPE_MAP keys are not small positive ints")
+    out["type_codes"] = sorted(tm)
     for v in out["codes"].values():
         need(type(v) is int, "close code type")
     return out
@@ -238,7 +241,7 @@ def ast_part():
 
 def render():
     tx, aio = part("tx"), part("aio")
-    for k in ("rows", "ws_protocols", "ws_ids", "codes"):
+    for k in ("rows", "ws_protocols", "ws_ids", "codes", "type_codes"):
         need(tx[k] == aio[k], f"{k} differs between the Twisted and the asyncio process")
     rows, codes = tx["rows"], tx["codes"]
     out = []
@@ -276,6 +279,8 @@ def render():
     w("Definition gen_close_internal_error : N := %d." % codes["internal"])
     w("Definition gen_close_normal : N := %d." % codes["normal"])
     w("Definition gen_close_going_away : N := %d." % codes["going_away"])
+    w("(* keys of Serializer.MESSAGE_TYPE_MAP: the message type codes a transport may hand to a session *)")
+    w("Definition gen_wamp_type_codes : list N := %s." % nlist(tx["type_codes"]))
     a = ast_part()
     w("")
     w("(* Twisted RawSocket: the receive limit each role ENFORCES (self.MAX_LENGTH = ...) and the exponent nibble it ANNOUNCES")
